@@ -26,6 +26,7 @@ CLASSES = [
     ['2.7', '2.70', '2.700'], ['-1.0', '-1.00', '-1.000'], ['1.', '1.0', '1.00'], ['0.05', '0.050', '0.0500'], ['-.5', '-.50', '-.500'],
     ['-7.85', '-7.850'], ['6.40875-2', '6.40875e-2', '6.40875E-2', '6.40875d-2', '6.40875D-2'],
     ['-1.2+1', '-1.2e+1', '-1.2E+1', '-1.2d+1'], ['-10.50', '-10.5'], ['100.0', '100.00', '100.'],
+    ['+0.0250', '+0.025', '+0.02500'], ['+1.50', '+1.5', '+1.500'],
 ]
 
 
